@@ -114,6 +114,23 @@ def utf8Spec (n : Nat) : Bytes :=
   else if n < 0x10000 then [b (0xE0 + n / 4096), b (0x80 + n / 64 % 64), b (0x80 + n % 64)]
   else [b (0xF0 + n / 262144), b (0x80 + n / 4096 % 64), b (0x80 + n / 64 % 64), b (0x80 + n % 64)]
 
+/-- put the bytes of one element in front of the decoded rest, `d` = input bytes the element took -/
+def prepend (pre : Bytes) (d : Nat) : Option (Bytes × Nat) → Option (Bytes × Nat)
+  | some (v, m) => some (pre ++ v, m + d)
+  | none => none
+
+/-- the byte a one-letter escape stands for (`\\r \\n \\t \\a \\b \\f \\v`; any other byte stands for itself) -/
+def escByte (e : UInt8) : UInt8 :=
+  if e == 114 then 13 else if e == 110 then 10 else if e == 116 then 9
+  else if e == 97 then 7 else if e == 98 then 8 else if e == 102 then 12 else if e == 118 then 11 else e
+
+/-- `\\xHH` (k = 2: one byte), `\\uHHHH` (k = 4) and `\\UHHHHHHHH` (k = 8: UTF-8 of the code point): `rest` is
+the text after the escape letter, `o` the decoded text after the `k` digits; `none` when fewer than
+`k` bytes are left -/
+def hexEsc (k : Nat) (rest : Bytes) (o : Option (Bytes × Nat)) : Option (Bytes × Nat) :=
+  if rest.length < k then none
+  else prepend (if k == 2 then [UInt8.ofNat (hexValue (rest.take k))] else utf8Spec (hexValue (rest.take k))) (2 + k) o
+
 /-- the text after an opening quote: `some (value, bytes consumed including the closing quote)`,
 or `none` when the string is not terminated before a NUL byte or the end of the input
 (an escape sequence cut short by the end of the input never terminates either) -/
@@ -125,27 +142,13 @@ def specString (dq : Bool) (q : UInt8) : Nat → Bytes → Option (Bytes × Nat)
       match rest with
       | [] => none
       | e :: rest =>
-        let hexEsc (k : Nat) : Option (Bytes × Nat) :=
-          if rest.length < k then none else
-          match specString dq q fuel (rest.drop k) with
-          | some (v, m) =>
-            let h := hexValue (rest.take k)
-            some ((if k == 2 then [UInt8.ofNat h] else utf8Spec h) ++ v, m + 2 + k)
-          | none => none
-        if e == 117 then hexEsc 4
-        else if e == 85 then hexEsc 8
-        else if e == 120 then hexEsc 2
-        else
-          let b : UInt8 := if e == 114 then 13 else if e == 110 then 10 else if e == 116 then 9
-            else if e == 97 then 7 else if e == 98 then 8 else if e == 102 then 12 else if e == 118 then 11 else e
-          match specString dq q fuel rest with
-          | some (v, m) => some (b :: v, m + 2)
-          | none => none
+        if e == 117 then hexEsc 4 rest (specString dq q fuel (rest.drop 4))
+        else if e == 85 then hexEsc 8 rest (specString dq q fuel (rest.drop 8))
+        else if e == 120 then hexEsc 2 rest (specString dq q fuel (rest.drop 2))
+        else prepend [escByte e] 2 (specString dq q fuel rest)
     else if c == q then some ([], 1)
     else if c == 0 then none
-    else match specString dq q fuel rest with
-      | some (v, m) => some (c :: v, m + 1)
-      | none => none
+    else prepend [c] 1 (specString dq q fuel rest)
 
 /-- encodings of the runes for which `unicode.IsSpace` holds -/
 def spaceSeqs : List Bytes :=
